@@ -129,6 +129,24 @@ pub fn stream(out: &mut Out, seed: u64, thorough: bool) {
     let nbase = if thorough { 40 } else { 10 };
     for b in 0..nbase {
         let mut fc = random_fit_case::<f64>(&mut rng, false, b * 3 + 1);
+        if b == 0 {
+            // the first scenario is the minimised failing history of the defect repaired by 34e4241
+            // (corpus/C09-failed-final-reset...): its fit ends with a REJECTED last trial, so that the
+            // optimizer re-applies the accepted parameters - whatever the random scenarios look like,
+            // a failure at that final re-application is part of every run
+            let bits = |v: &[u64]| -> Vec<f64> { v.iter().map(|b| f64::from_bits(*b)).collect() };
+            fc.base.recipe = Recipe {
+                names: vec![NAMES[0].to_string()],
+                fns: vec![FnSpec { kind: Kind::Quad, params: vec![0] }, FnSpec { kind: Kind::Lin, params: vec![] }],
+                x: bits(&[0x3fce000000000000, 0x3fe4800000000000, 0x3ff0000000000000, 0x3ff6400000000000, 0x3ffd000000000000, 0x4001e00000000000, 0x4004a00000000000, 0x4008200000000000, 0x400ac00000000000, 0x400de00000000000]),
+            };
+            fc.base.w = Some(bits(&[0x3ffce00000000000, 0x3fe0500000000000, 0x3ff4400000000000, 0x3ff7b40000000000, 0x3ffd880000000000, 0x3ffd940000000000, 0x3ff1080000000000, 0xbff9380000000000, 0xbff9d40000000000, 0x3ffe340000000000]));
+            fc.base.wkind = "negatives";
+            fc.base.y = nalgebra::DMatrix::from_vec(10, 1, bits(&[0x4010b7c6bc9b1c49, 0x4016a08deba47471, 0x401bf5630365f8de, 0x4020e37da5052ec5, 0x402409b0046048bb, 0x40272636c28149da, 0x4029ae9010c0dcf8, 0x402cf38ccc924ee3, 0x402f6e494d55a4d6, 0x403129b04cb26403]));
+            fc.base.eps = None;
+            fc.base.built = true;
+            fc.base.init = bits(&[0x3ff8e131e8da8a37]);
+        }
         // sequential flavours only: the order of derivative calls must be deterministic
         fc.base.flavour = if b % 2 == 0 { Flavour::New } else { Flavour::Mrhs };
         if !fc.base.flavour.is_mrhs() && fc.base.y.ncols() != 1 {
@@ -140,13 +158,17 @@ pub fn stream(out: &mut Out, seed: u64, thorough: bool) {
             random_alpha(&mut rng, fc.base.recipe.p()),
             fc.base.init.iter().map(|v| v * 1.01).collect(),
         ];
+        if b == 0 {
+            fc.base.flavour = Flavour::Mrhs;
+            fc.base.history = vec![vec![f64::from_bits(0x3ff0f00000000000)], vec![f64::from_bits(0x3ff920e30c765347)]];
+        }
         let mut cfg = LmCfg::default_cfg();
         cfg.default = false;
         cfg.ftol = 1e-10;
         cfg.xtol = 1e-10;
         cfg.gtol = 1e-10;
         cfg.patience = 20;
-        let sc = Scenario { base: fc.base, cfg, with_stats: b % 2 == 0 };
+        let sc = Scenario { base: fc.base, cfg, with_stats: b % 2 == 0 && b != 0 };
         let (k, marks) = run_scenario::<f64>(None, &sc, usize::MAX, usize::MAX, "dry=1");
         let kmax = if thorough { k } else { k.min(80) };
         // the fault-free run itself
